@@ -242,12 +242,12 @@ func promise(pre []string, par []string) func() vrt.Run {
 func drivers(quick bool) []conc.Driver {
 	budget := 90 * time.Second
 	if !quick {
-		budget = 20 * time.Minute
+		budget = 10 * time.Minute
 	}
 	cfg := vrt.Config{PreemptBound: -1, Budget: budget}
 	var ds []conc.Driver
 	add := func(name string, mk func() vrt.Run) {
-		ds = append(ds, conc.Driver{Name: name, Cfg: cfg, Mk: mk, Fallback: []int{0, 1, 2, 3}})
+		ds = append(ds, conc.Driver{Name: name, Cfg: cfg, Mk: mk, Fallback: []int{0, 1, 2, 3, 4, 5, 6}})
 	}
 	type pc struct{ w, c, b, n, e int }
 	pcs := []pc{{2, 2, 2, 0, -1}, {2, 2, 2, 1, -1}, {1, 0, 0, 2, -1}, {2, 1, 0, 3, 1}, {2, 0, 1, 2, 0}}
